@@ -1204,7 +1204,7 @@ package vm
 // cover it - the same conservation clauses as EVM.Call (the nonce bump before the snapshot is deliberate and
 // survives a failing frame, so no [revert] clause here).
 //@ func EVM.AuthCall
-//@   property C06 C11
+//@   property C06 C11 C12
 //@   option intmode=math
 //@   requires ref(caller) != 0 && evm != nil && value != nil && typeid(caller) != 0 && typeid(evm.StateDB) != 0
 //@   requires [nonneg] big(value) >= 0
